@@ -930,7 +930,12 @@ func procFacts(t *structT) [][2]string {
 func main() {
 	repo := flag.String("repo", "/repo", "repository root")
 	out := flag.String("out", "", "output Lean file")
+	mode := flag.String("mode", "udp", "udp: layouts and tables of lang/pack/udp; goir: ParamKV / stringutil functions in the interpreted IR")
 	flag.Parse()
+	if *mode == "goir" {
+		goirMain(*repo, *out)
+		return
+	}
 	load(filepath.Join(*repo, "lang", "pack", "udp"))
 
 	var b strings.Builder
